@@ -3,6 +3,7 @@ package props
 import (
 	"npverif/internal/core"
 	"npverif/internal/rules"
+	"strings"
 )
 
 func init() {
@@ -15,6 +16,7 @@ func init() {
 			"(C06-a-store) a set stored into such a holder is fresh; (C06-pure) no unreviewed long-lived write on the query paths; " +
 			"(C06-e) a rule peer is recorded as exposure to the entire cluster only under `namespaceSelector present and empty, podSelector absent or empty` (path condition at the recording call; one-line boolean helpers are inlined), and external + cluster-wide only for a rule without peers. " +
 			"(C06-order) GetPeersList stores the IP peers before the workload peers and does not re-order the list: the exposure bookkeeping records a workload's cluster-wide exposure at its first pair as a destination and relies on that pair's source being unrestricted. " +
+			"(C06-pairs) every constant `false` exit of the pair filter is taken for a reviewed reason (both ends IP blocks; the same peer; an exclusion under the exposure option; neither end the focus workload): the exposure data of a pod are read at its first pair as a destination, which must be a pair with an unrestricted IP source. " +
 			"NOT decided: realizability of each reported entry for hypothetical pods."
 		rules.SharedSets(p, r, "C06-a")
 		rules.ExposureShortcut(p, r, "C06-b")
@@ -25,5 +27,22 @@ func init() {
 		rules.LoopCarriedDefaults(p, r, "C06-loop")
 		rules.SelectorsFullMatchTable(p, r, "C06-f")
 		rules.PeersListOrder(p, r, "C06-order")
+		rules.PairFilterExclusions(p, r, "C06-pairs")
+		// the positive side of the same filter (the rule of C16-pred, restricted to the pair filter): every exit that is not
+		// an exclusion answers isPeerFocusWorkload(src) || isPeerFocusWorkload(dst) - a further conjunct (one named peer
+		// only, ...) drops the (IP block, workload) pairs as well
+		{
+			sub := core.NewReport("C06")
+			rules.FocusFilter(p, sub, "C06-focus")
+			n := 0
+			for _, o := range sub.Obs {
+				if o.Rule == "C06-focus-pred" && strings.Contains(o.Construct, "a pair is kept iff") {
+					r.Add("C06-pairs-kept", o.Construct, o.Pos, o.Status, o.Reason, o.Path...)
+					n++
+				}
+			}
+			r.RuleCounts["C06-pairs-kept"] = n
+			r.Floor("C06-pairs-kept", 1)
+		}
 	})
 }
